@@ -1,9 +1,6 @@
 package rules
 
 import (
-	"fmt"
-	"go/token"
-
 	"golang.org/x/tools/go/ssa"
 
 	"kgv/internal/eng"
@@ -23,37 +20,54 @@ func c19WriteThroughAck(c *eng.Ctx) {
 	if save == nil {
 		return
 	}
-	isWrite := func(i ssa.Instruction) bool {
-		ci, ok := i.(ssa.CallInstruction)
-		return ok && eng.IsCall(ci, "(*"+pkgRLStoreK8s+".objectStore).createOrUpdate")
+	// Decided by forcing (c19WriteThroughPaths): with every load of syncPeriod yielding 0, each
+	// path of Save — through the helpers it calls — that can end in an acknowledgement (an
+	// error result not known to be non-nil) has executed the API write. Where the mode test
+	// sits (Save, a helper returning the object to keep, a predicate) does not matter.
+	isAPIWrite := func(ci ssa.CallInstruction) bool {
+		return eng.IsCall(ci, c19CondIface+".Update", c19CondIface+".Create")
 	}
-	n := 0
-	for _, b := range save.Blocks {
-		iff, ok := b.Instrs[len(b.Instrs)-1].(*ssa.If)
-		if !ok {
+	const construct = "write-through edge#1: every exit lies behind the API write"
+	paths, isEvent, consulted, err := c19WriteThroughPaths(c, save, isAPIWrite)
+	if err != nil {
+		c.Undecided("R8", save, construct, save.Pos(), "the paths of Save cannot be enumerated: "+err.Error())
+		return
+	}
+	errIdx := save.Signature.Results().Len() - 1
+	var bad, cut ssa.Instruction
+	nAck := 0
+	for _, pr := range paths {
+		if pr.Panicked {
 			continue
 		}
-		r := eng.RelOf(iff.Cond, true)
-		isPeriod := func(v ssa.Value) bool { return eng.FieldLoadOf(v, pkgRLStoreK8s+".objectStore", "syncPeriod") }
-		isZero := func(v ssa.Value) bool { z, ok := eng.IntConst(v); return ok && z == 0 }
-		if !((isPeriod(r.X) && isZero(r.Y)) || (isZero(r.X) && isPeriod(r.Y))) {
+		if pr.LoopCut {
+			cut = save.Blocks[0].Instrs[0]
 			continue
 		}
-		var wt *ssa.BasicBlock
-		switch r.Op {
-		case token.EQL, token.LEQ:
-			wt = b.Succs[0]
-		case token.NEQ, token.GTR:
-			wt = b.Succs[1]
-		default:
-			continue
+		if errIdx < 0 || errIdx >= len(pr.Ret) || pr.Ret[errIdx].K == eng.NonNilV {
+			continue // refused: the caller is not acknowledged
 		}
-		n++
-		x := eng.ReachFromBlock(wt, eng.PathQuery{Target: eng.IsExit, Avoid: eng.LiftPred(isWrite)})
-		c.Check("R8", save, fmt.Sprintf("write-through edge#%d: every exit lies behind the API write", n), iff.Pos(), x == nil,
+		nAck++
+		written := false
+		for _, ci := range pr.Calls {
+			written = written || isEvent(ci)
+		}
+		if !written && bad == nil {
+			bad = pr.Exit
+		}
+	}
+	pos := save.Pos()
+	if bad != nil {
+		pos = bad.Pos()
+	}
+	switch {
+	case bad == nil && cut != nil:
+		c.Undecided("R8", save, construct, pos, "Save contains a loop: its paths cannot be enumerated")
+	case nAck == 0:
+		c.Fail("R8", save, construct, pos, "no path of Save acknowledges in write-through mode")
+	default:
+		_ = consulted // a Save that never looks at syncPeriod writes through unconditionally
+		c.Check("R8", save, construct, pos, bad == nil,
 			"Save returns in write-through mode without having written the condition to the API: the caller's acknowledgement is not backed by the persisted object")
-	}
-	if n == 0 {
-		c.Fail("R8", save, "write-through edge", save.Pos(), "no test of syncPeriod against 0 found in Save")
 	}
 }
